@@ -209,7 +209,7 @@ def documented(case):
     test = init["test"] or "alpha_mart"
     if not (0 < t < u):
         return False
-    if "eta" in kw and not (t < kw["eta"] <= u):
+    if "eta" in kw and not ((0 if test == "wald_sprt" else t) < kw["eta"] <= u):
         return False
     if "lam" in kw and not (0 <= kw["lam"] <= 1 / u):
         return False
